@@ -804,6 +804,11 @@ class Engine(object):
                             if idx < len(args) and kind != 'READER0':
                                 # ByteBuffer::AppendBytes(ptr, n) vs (n) overloads: only integral args are sizes
                                 if A.is_integral_type(args[idx].type().replace('&', '').strip()):
+                                    if kind == 'ALLOCCOPY':
+                                        # GetByteBufferFromPool(n, src): an allocation of n bytes, and a copy of n bytes from src when src is given — decided here, at the call
+                                        # itself, so that a summary of the enclosing function carries the right kind
+                                        src_null = len(args) < 2 or args[1]['k'] in ('CXXDefaultArgExpr', 'GNUNullExpr', 'CXXNullPtrLiteralExpr') or args[1].get('v') == 0
+                                        kind = 'ALLOC' if src_null else 'COPY'
                                     hits.append((args[idx], kind))
                 # callee summaries: param k of g reaches a sink unguarded
                 if not any(rx.search(q) for (rx, _) in SINKS) and depth < self.max_depth:
